@@ -31,8 +31,9 @@ template <typename R1, uint64_t N1, uint64_t D1, typename R2, uint64_t N2, uint6
 void mixedf(const char *k1s, const char *k2s, const MOpts &o) {
     Rng rng(o.seed ^ (N1 * 31 + D1 * 17 + N2 * 13 + D2 * 7) ^ (sizeof(R1) * 101 + sizeof(R2)));
     const long double k1 = (long double)parse_i128(k1s), k2 = (long double)parse_i128(k2s);
-    std::vector<R1> xs = FVals<R1>::get(rng, o.nrandom / 10);
-    std::vector<R2> ys = FVals<R2>::get(rng, o.nrandom / 10);
+    const int nr = o.nrandom > 4000 ? 4000 : o.nrandom;          // every pair is logged and judged by TLC: keep the grid in the hundreds
+    std::vector<R1> xs = FVals<R1>::get(rng, nr / 10);
+    std::vector<R2> ys = FVals<R2>::get(rng, nr / 10);
     long long n = 0, logged = 0;
     auto one = [&](R1 x, R2 y, const char *why) {
         ++n;
